@@ -230,6 +230,47 @@ def cascade_shifts(fn: FuncInfo) -> Optional[List[int]]:
     return shifts
 
 
+def _halving_loop(fn: FuncInfo):
+    """(smallest possible initial shift, explanation) for `while s > 0: x = xor(x, x >> s); s //= 2` loops, else None."""
+    whiles = [n for n in walk_no_nested(fn.node) if isinstance(n, ast.While)]
+    if len(whiles) != 1:
+        return None
+    w = whiles[0]
+    var = None
+    for n in ast.walk(w):
+        if isinstance(n, ast.AugAssign) and isinstance(n.target, ast.Name) and \
+                ((isinstance(n.op, ast.FloorDiv) and const_value(n.value) == 2) or (isinstance(n.op, ast.RShift) and const_value(n.value) == 1)):
+            var = n.target.id
+    if var is None or not any(isinstance(n, ast.BinOp) and isinstance(n.op, ast.RShift) and norm(n.right) == var for n in ast.walk(w)):
+        return None
+    if not any(xor_operands(n) is not None for n in ast.walk(w)):
+        return None
+    loc = {}
+    for n in walk_no_nested(fn.node):
+        if isinstance(n, ast.Assign) and len(n.targets) == 1 and isinstance(n.targets[0], ast.Name) and n.lineno < w.lineno:
+            loc[n.targets[0].id] = n.value
+
+    def lo(e, depth=0):
+        """smallest value the expression can take (None = unknown)"""
+        v = const_value(e)
+        if isinstance(v, int):
+            return v, 'constant %d' % v
+        if isinstance(e, ast.Name) and e.id in loc and depth < 5:
+            return lo(loc[e.id], depth + 1)
+        if isinstance(e, ast.BinOp) and isinstance(e.op, ast.Mult):
+            a, b = lo(e.left, depth + 1), lo(e.right, depth + 1)
+            if a[0] is not None and b[0] is not None:
+                return a[0] * b[0], '%s * %s' % (a[1], b[1])
+        if isinstance(e, ast.Call) and norm(e.func) == 'getattr' and len(e.args) == 3:
+            d = const_value(e.args[2])
+            if isinstance(d, int):
+                return d, 'getattr default %d when the argument has no %s' % (d, norm(e.args[1]))
+        return None, 'unbounded expression `%s`' % norm(e)[:40]
+    if var not in loc:
+        return None, 'initial shift not assigned before the loop'
+    return lo(loc[var])
+
+
 def _check_gray2binary(ctx: Ctx) -> None:
     M = ctx.model
     ctx.rule('C15.b', 'Gray->binary prefix-xor covers the 64-bit integer width', floor=1)
@@ -245,6 +286,17 @@ def _check_gray2binary(ctx: Ctx) -> None:
                 if all(isinstance(v, int) for v in vals):
                     shifts = vals
         if shifts is None:
+            hl = _halving_loop(fn)
+            if hl is not None:
+                start, why = hl
+                ok = start is not None and start >= WIDTH // 2
+                ctx.obligation('C15.b', 'gray2binary', ok, {'form': 'halving-shift loop', 'smallest_initial_shift': start, 'how': why})
+                if start is None:
+                    ctx.error('C15.b: halving-shift loop whose initial shift cannot be bounded (%s)' % why)
+                if not ok:
+                    ctx.violation('C15.b', 'gray2binary', 'the halving-shift loop can start at shift %d (%s): integers that carry no dtype '
+                                  '(plain Python ints) are only inverted below 2^%d' % (start, why, 2 * start), fn.path, fn.lineno, operand='width')
+                return
             whiles = [l for l in loops if isinstance(l, ast.While)]
             ok = bool(whiles) and any(isinstance(n, ast.AugAssign) and isinstance(n.op, ast.RShift) for n in ast.walk(whiles[0])) \
                 and any(isinstance(n, (ast.AugAssign, ast.BinOp)) and isinstance(n.op, ast.BitXor) for n in ast.walk(whiles[0]))
@@ -344,6 +396,14 @@ MUTANTS = [
     Mutant('revert-fix-gray2binary-16-bit', CONV, 'gray2binary',
            [('regex', r'    temp = xor\(num, num >> 32\)\n    temp = xor\(temp, temp >> 16\)\n    temp = xor\(temp, temp >> 8\)',
              '    temp = xor(num, num >> 8)')], r'C15\.b:gray2binary'),
+    Mutant('halving-loop-default-itemsize-4', CONV, 'gray2binary',
+           [('regex', r'    temp = xor\(num, num >> 32\)\n.*    temp = xor\(temp, temp >> 1\)\n',
+             "    itemsize = getattr(getattr(num, 'dtype', None), 'itemsize', 4)\n    shift = 4 * itemsize\n    temp = num\n    while shift > 0:\n        temp = xor(temp, temp >> shift)\n        shift //= 2\n")],
+           r'C15\.b:gray2binary'),
+    Mutant('benign-halving-loop-from-32', CONV, 'gray2binary',
+           [('regex', r'    temp = xor\(num, num >> 32\)\n.*    temp = xor\(temp, temp >> 1\)\n',
+             "    shift = 32\n    temp = num\n    while shift > 0:\n        temp = xor(temp, temp >> shift)\n        shift //= 2\n")],
+           None, benign=True),
     Mutant('binary2gray-shift-2', CONV, 'binary2gray', [('replace', 'num >> 1', 'num >> 2')], r'C15\.c:binary2gray'),
     Mutant('bit-errors-of-first-only', MISC, 'count_bit_errors', [('replace', 'xor(first, second)', 'xor(first, first)')],
            r'C15\.c:count_bit_errors'),
